@@ -21,7 +21,7 @@ package pool
 //@ func (*quotaMetric).allocate
 //@   props C15
 //@   modifies delta[&m.remaining]
-//@   loop 0 invariant delta(&m.remaining) == old(delta(&m.remaining))
+//@   loop 0 invariant forall c ref :: delta(c) == old(delta(c))
 //@   ensures taken: r0 ==> delta(&m.remaining) == old(delta(&m.remaining)) - v
 //@   ensures refused-no-effect: !r0 ==> delta(&m.remaining) == old(delta(&m.remaining))
 
